@@ -303,6 +303,23 @@ let wordspec_line line =
                   chunks))
        cdps)
 
+(* writer: <max> <batch sizes> <well-framed input hex>: the writer model alone, with a chosen flush threshold *)
+let writer_line line =
+  match split_ws line with
+  | [ mx; sizes; hex ] ->
+      let input = if hex = "-" then [] else bytes_of_hex hex in
+      let c = { sc_filter = None; sc_skip = false; sc_src = Src_file } in
+      let cdps = List.concat (scan true true c input).so_batches in
+      let sizes = List.map int_of_string (String.split_on_char ',' sizes) in
+      let rec take_n n l = if n = 0 then ([], l) else match l with [] -> ([], []) | x :: r -> let a, b = take_n (n - 1) r in (x :: a, b) in
+      let rec group k l =
+        if l = [] then [] else
+          let sz = max 1 (min 100 (List.nth sizes (min k (List.length sizes - 1)))) in
+          let a, b = take_n sz l in a :: group (k + 1) b in
+      let out = write_all (n_of_int (int_of_string mx)) (group 0 cdps) in
+      Printf.sprintf "%d %08X" (List.length out) (crc32_bytes 0 out)
+  | _ -> "unknown"
+
 let rdhrt_line line =
   let b = bytes_of_hex (String.trim line) in
   let r = decode_rdh b in
@@ -321,6 +338,7 @@ let () =
     | "scanfixed" -> scan_with `Fixed
     | "written" -> written_line
     | "rdhrt" -> rdhrt_line
+    | "writer" -> writer_line
     | "wordspec" -> wordspec_line
     | "rdhspec" -> rdhspec_line
     | _ -> prerr_endline ("unknown stream " ^ stream); exit 2
